@@ -16,8 +16,26 @@ import (
 	"golang.org/x/tools/go/ssa"
 )
 
+// litTree is an if-then-else tree over untyped integer literals (typed when coerced).
+type litTree struct {
+	cond Val
+	a, b *litTree
+	leaf *big.Int
+}
+
+func (t *litTree) term(w int, intSort bool) Val {
+	if t.leaf != nil {
+		if intSort {
+			return Val{bigIntSMT(t.leaf), SInt}
+		}
+		return BVBig(w, t.leaf)
+	}
+	return Ite(t.cond, t.a.term(w, intSort), t.b.term(w, intSort))
+}
+
 type TV struct {
 	Val
+	Tree     *litTree   // ite over untyped literals
 	Ty       types.Type // Go type if known
 	Lit      *big.Int   // untyped integer literal
 	Unsigned bool       // for spec bit-vectors without a Go type
@@ -90,6 +108,15 @@ func lit(x *big.Int) TV { return TV{Lit: x} }
 
 // coerce turns an untyped literal into a value of the sort of other.
 func (c *EvalCtx) coerce(v TV, other TV) (TV, error) {
+	if v.Tree != nil {
+		if other.S.IsBV() {
+			return TV{Val: v.Tree.term(other.S.BVWidth(), false), Ty: other.Ty, Unsigned: other.Unsigned}, nil
+		}
+		if other.S == SInt {
+			return TV{Val: v.Tree.term(0, true)}, nil
+		}
+		return TV{Val: v.Tree.term(64, false), Ty: types.Typ[types.Int]}, nil
+	}
 	if v.Lit == nil && !v.IsNil {
 		return v, nil
 	}
@@ -386,7 +413,9 @@ func (c *EvalCtx) evalUnary(x *SUnary) (TV, error) {
 		if !ok {
 			return TV{}, fmt.Errorf("* on non-pointer")
 		}
-		return TV{Val: c.e.load(c.st, v.Val, pt.Elem()), Ty: pt.Elem()}, nil
+		lv := c.e.load(c.st, v.Val, pt.Elem())
+		c.assumeLoadedValid(lv, pt.Elem())
+		return TV{Val: lv, Ty: pt.Elem()}, nil
 	}
 	return TV{}, fmt.Errorf("unknown unary %s", x.Op)
 }
@@ -646,15 +675,14 @@ func (c *EvalCtx) assumeLoadedValid(v Val, t types.Type) {
 	if strings.Contains(v.T, "!") || c.st == nil {
 		return
 	}
-	key := "valid:" + v.T
+	// a value read from memory in state S refers to objects allocated before S
+	key := "valid:" + v.T + "@" + c.st.next.T
 	if c.e.revealDone[key] {
 		return
 	}
 	c.e.revealDone[key] = true
 	for _, f := range c.e.validFacts(c.st, v, t, 0) {
-		if !strings.Contains(f.T, "next") { // allocation facts depend on the state; keep only shape facts
-			c.e.fact(f)
-		}
+		c.e.fact(f)
 	}
 }
 
